@@ -79,9 +79,14 @@ TRUSTED_BASE = [
     "extracted contour reproduces the mask' (digital topology of the "
     "assembled contour; the model of _assemble_contours/get_contour is "
     "executable and compared exactly with the real code, but no theorem "
-    "about it), rotation invariance and >= 1 of the principal inertia "
-    "ratio (trigonometric), convergence of the volume to 4/3 pi a b^2 "
-    "(real analysis); tolerances are stated in harness/c18.py",
+    "about it; refill goes through the real fmt_tdms.event_mask.MaskColumn), "
+    "rotation of the principal inertia ratio by arbitrary REAL angles (the "
+    "theorems cover every angle with rational tangent, scaling, reflection, "
+    "translation and '>= 1' for positive definite second moments; that "
+    "get_inert_ratio_prnc computes (T + sqrt D)/(T - sqrt D) is a "
+    "correspondence check: sqrt/arctan2/cos/sin are not modelled), "
+    "convergence of the volume to 4/3 pi a b^2 (real analysis); tolerances "
+    "are stated in harness/c18.py",
     "binary64 rounding is not modelled: model values are exact rationals, "
     "compared with the implementation within 1e-9 relative (principal "
     "inertia ratio, float32: 2e-6)",
@@ -124,6 +129,8 @@ ASSUMPTIONS = [
 # violation.  The matchers still name the class of inputs in the report.
 F_BORDER = "C18-contour-open-at-border"
 F_PERC = "C18-bright-perc-bg-off-array"
+# also repaired: C18-volume-fix-orientation (766fd2f), C18-bright-integer-mask
+# (a85d21f); their oracles report plain violations
 
 SC = 10000
 HEADER = ("From Coq Require Import ZArith QArith List Bool.\n"
@@ -278,6 +285,22 @@ def gen_mask(rng, thorough=False, tag=None):
     big = 22 if thorough else 14
     h = rng.randint(2, big)
     w = rng.randint(2, big + 2)
+    if tag == "frame":
+        # realistic frame: large blob (contour > 256 points) near the right /
+        # bottom edge, coordinates above 255
+        h, w = rng.choice([(80, 250), (96, 256), (64, 320)])
+        a = rng.uniform(38, 60)
+        b = rng.uniform(20, min(34, h / 2 - 4))
+        cx = w - a - rng.choice([-3, 0, 1, 2, 5])
+        cy = rng.choice([h - b - rng.choice([-2, 0, 1, 3]), h / 2])
+        yy, xx = np.mgrid[0:h, 0:w]
+        ang = rng.uniform(-0.2, 0.2)
+        xr = (xx - cx) * math.cos(ang) + (yy - cy) * math.sin(ang)
+        yr = -(xx - cx) * math.sin(ang) + (yy - cy) * math.cos(ang)
+        m = (xr / a) ** 2 + (yr / b) ** 2 <= 1.0
+        m = ndi.binary_fill_holes(_largest(m))
+        return dict(kind="mask", tag="frame",
+                    rows=[[int(v) for v in row] for row in m])
     tag = tag or rng.choice(["blob4", "blob4", "blob8", "blob8", "thin",
                              "thin", "ellipse", "rect", "border", "border",
                              "full", "single", "pair", "holes", "multi",
@@ -403,14 +426,44 @@ def enc_contour_call(mask, g=None):
     return flat, c
 
 
-def refill(cont, shape):
-    """contour -> mask exactly as dclab does it (fmt_tdms/event_mask.py)"""
-    np = _np()
-    import scipy.ndimage as ndi
-    m = np.zeros(shape, dtype=bool)
-    m[cont[:, 1], cont[:, 0]] = True
-    ndi.binary_fill_holes(m, output=m)
-    return m
+class _StubContours(list):
+    identifier = "verif-c18"
+
+
+class _StubDataset(dict):
+    """the three things fmt_tdms.event_mask.MaskColumn reads from a dataset"""
+
+    def __init__(self, contours, shape, with_image):
+        np = _np()
+        super().__init__(contour=_StubContours(contours),
+                         image=(np.zeros((len(contours),) + tuple(shape),
+                                         dtype=np.uint8)
+                                if with_image else ()))
+        self.config = {"imaging": {"roi size x": shape[1],
+                                   "roi size y": shape[0]}}
+
+
+class _ArrayTruth:
+    """image column stand-in: truthy, has .shape (MaskColumn does
+    `if self.image:`)"""
+
+    def __init__(self, shape):
+        self.shape = shape
+
+    def __bool__(self):
+        return True
+
+
+def refill(cont, shape, with_image=False):
+    """contour -> mask with dclab's own code:
+    rtdc_dataset.fmt_tdms.event_mask.MaskColumn.__getitem__"""
+    from dclab.rtdc_dataset.fmt_tdms.event_mask import MaskColumn
+    ds = _StubDataset([cont], shape, False)
+    if with_image:
+        ds["image"] = _ArrayTruth((1,) + tuple(shape))
+        ds.config = {"imaging": {}}       # shape must come from the image
+    mc = MaskColumn(ds)
+    return mc[0]
 
 
 def boundary_pixels(m):
@@ -437,15 +490,19 @@ def mask_oracle(case, cont):
         return "contour leaves the image"
     if not m[cont[:, 1], cont[:, 0]].all():
         return "contour point outside the mask"
-    back = refill(cont, m.shape)
-    if not (back == m).all():
-        return ("refilling the contour does not reproduce the mask "
-                "(%d pixels differ)" % int((back != m).sum()))
-    b = boundary_pixels(m)
-    got = np.zeros_like(m)
-    got[cont[:, 1], cont[:, 0]] = True
-    if not (got == b).all():
-        return "contour points are not exactly the boundary pixels"
+    back = refill(cont, m.shape, with_image=bool(len(cont) % 2))
+    if back.shape != m.shape or not (back == m).all():
+        return ("refilling the contour (MaskColumn) does not reproduce the "
+                "mask (%d pixels differ)" % int((back != m).sum()))
+    # every contour point lies on the boundary (a mask pixel with background
+    # among its 8 neighbours; which of them a tracer visits is its choice)
+    pm = np.pad(m, 1)
+    inner = np.ones_like(m)
+    for dr in (0, 1, 2):
+        for dc in (0, 1, 2):
+            inner &= pm[dr:dr + m.shape[0], dc:dc + m.shape[1]]
+    if inner[cont[:, 1], cont[:, 0]].any():
+        return "contour point in the interior of the mask"
     nxt = np.roll(cont, -1, axis=0)
     d = np.abs(nxt - cont).max(axis=1)
     if len(cont) > 1 and ((d > 1).any() or (d == 0).any()):
@@ -512,8 +569,33 @@ def gen_moments(rng, pool_contours):
                for _ in range(rng.randint(1, 10))]
     dt = rng.choice(["int32", "int64"] if big else
                     ["int32", "int64", "float64", "int16"])
+    lo = min(v for p in pts for v in p)
+    hi = max(v for p in pts for v in p)
+    if lo >= 0 and rng.random() < 0.35:
+        # unsigned contours (differences x1*y0 - x0*y1 must not wrap)
+        dt = rng.choice([d for d, m in (("uint8", 255), ("uint16", 65535),
+                                        ("uint32", 2 ** 32 - 1)) if hi <= m])
     return dict(kind="moments", pts=pts, dtype=dt, big=big,
                 t=[rng.randint(-50, 200), rng.randint(-50, 50)])
+
+
+def gen_rotation(rng):
+    poly = simple_polygon(rng, rng.randint(3, 30), rng.randint(4, 80),
+                          rng.randint(-20, 200), rng.randint(-20, 60))
+    case = dict(kind="rotation",
+                angles=[rng.uniform(0, 2 * math.pi) for _ in range(3)])
+    if rng.random() < 0.5:
+        # genuinely fractional vertices
+        case["pts"] = [[x + rng.uniform(-0.45, 0.45),
+                        y + rng.uniform(-0.45, 0.45)] for x, y in poly]
+    else:
+        # integer vertices, additionally rotated by atan2(q, p) exactly
+        case["pts"] = [[float(x), float(y)] for x, y in poly]
+        p_, q_ = rng.choice([(0, 1), (0, -1), (-1, 0), (1, 1), (3, 4),
+                             (2, -1), (5, 12), (-3, 2), (1, 7),
+                             (rng.randint(-6, 6), rng.randint(1, 6))])
+        case["pq"] = [p_, q_]
+    return case
 
 
 def gen_volrev(rng):
@@ -543,12 +625,15 @@ def gen_volume(rng, pool_contours):
                              rng.randint(10, 100), rng.randint(10, 50))
     xs = [p[0] for p in pts]
     ys = [p[1] for p in pts]
-    cx8 = rng.randint(8 * min(xs) - 8, 8 * max(xs) + 8)
-    cy8 = rng.randint(8 * min(ys) - 4, 8 * max(ys) + 4)
-    if rng.random() < 0.3:
-        cy8 = 4 * (min(ys) + max(ys))
-    return dict(kind="volume", pts=pts, cx8=cx8, cy8=cy8,
-                pix=rng.choice([0.34, 0.25, 1.0, 0.5, 0.17]),
+    # centre = (cx8, cy8) / k  (k = 8 in older corpus entries)
+    k = rng.choice([1, 2, 4, 8, 8, 16])
+    cx8 = rng.randint(k * min(xs) - k, k * max(xs) + k)
+    cy8 = rng.randint(k * min(ys) - k // 2, k * max(ys) + k // 2)
+    if rng.random() < 0.3 and k >= 2:
+        cy8 = (k // 2) * (min(ys) + max(ys))
+    return dict(kind="volume", pts=pts, cx8=cx8, cy8=cy8, k=k,
+                fix=rng.random() < 0.3,
+                pix=rng.choice([0.34, 0.25, 1.0, 0.5, 0.17, 0.2, 1.36, 0.68]),
                 s=rng.choice([2.0, 3.0, 0.5, 1.7]),
                 t=[rng.randint(-20, 40), rng.randint(-10, 10)],
                 container=rng.choice(["single", "list"]))
@@ -633,9 +718,19 @@ def gen_bright(rng):
         off8 = [o] * len(events)
     else:
         off8 = [rng.randint(-64, 64) for _ in events]
-    return dict(kind="bright", fn=fn, dtype=dtype, bgdtype=bgdtype,
+    case = dict(kind="bright", fn=fn, dtype=dtype, bgdtype=bgdtype,
                 container=container, offkind=offkind, off8=off8,
-                events=events)
+                events=events,
+                maskdtype=rng.choice(["bool", "bool", "uint8", "uint8_255",
+                                      "int64"]),
+                extra=(container != "single" and rng.random() < 0.15),
+                extra_mask=(container == "list" and rng.random() < 0.15))
+    if fn and container != "single" and len(events) >= 2 and \
+            rng.random() < 0.08:
+        # neither one offset per event nor a single one: cannot be broadcast
+        case["offkind"] = "array_bad"
+        case["off8"] = off8 + [rng.randint(-64, 64)]
+    return case
 
 
 def gen_crosstalk(rng):
@@ -758,6 +853,35 @@ def enc_iterate(func, arr, vch):
     return flat
 
 
+def canon_cyclic(pts):
+    """cyclic sequence of points -> its lexicographically smallest rotation
+    (start point of a closed contour is not part of the property)"""
+    pts = [tuple(p) for p in pts]
+    if not pts:
+        return []
+    lo = min(pts)
+    best = None
+    for i, p in enumerate(pts):
+        if p == lo:
+            r = pts[i:] + pts[:i]
+            if best is None or r < best:
+                best = r
+    return best
+
+
+def canon_contours(flat_list):
+    """find_contours output (flat int lists) -> sorted canonical contours:
+    closed contours up to rotation, the list up to order"""
+    out = []
+    for fl in flat_list:
+        pts = list(zip(fl[0::2], fl[1::2]))
+        if len(pts) > 1 and pts[0] == pts[-1]:
+            out.append(("closed", canon_cyclic(pts[:-1])))
+        else:
+            out.append(("open", pts))
+    return sorted(out)
+
+
 def do_mask(ctx, case):
     np = _np()
     from dclab.external.skimage import _find_contours_cy as cy
@@ -770,8 +894,9 @@ def do_mask(ctx, case):
     rows_t = transpose(rows)
     arr = np.asarray(m.transpose(), dtype=np.double)
     nontrivial = False
+    frame = case["tag"] == "frame"
     # (1) marching squares: binary and de-cythonised source, both settings
-    for vch in (True, False):
+    for vch in (() if frame else (True, False)):
         e_bin = enc_iterate(g(cy.iterate_and_store), arr, vch)
         try:
             e_src = enc_iterate(g(decy_module().iterate_and_store), arr,
@@ -801,8 +926,12 @@ def do_mask(ctx, case):
         enc = [[0]]
 
     def chk2(model, enc=enc):
-        return None if model == enc else ("find_contours", enc)
-    ctx.add("run_find_contours", "(%s, true)" % r_img(rows_t), case, chk2)
+        if model == enc or (enc != [[0]] and model != [[0]] and
+                            canon_contours(model) == canon_contours(enc)):
+            return None
+        return "find_contours", enc
+    if not frame:
+        ctx.add("run_find_contours", "(%s, true)" % r_img(rows_t), case, chk2)
     # (3) get_contour
     flat, cont = enc_contour_call(m, g)
     conn, hf, npix, tb = mask_props(rows)
@@ -817,14 +946,51 @@ def do_mask(ctx, case):
         else:
             nontrivial = True
     elif conn and hf and npix == 1:
-        if flat != [2]:
-            ctx.fail(case, "one-pixel mask: expected "
-                     "NoValidContourFoundError, got %r" % (flat[:5],))
+        if flat[0] == 1:
+            ctx.fail(case, "one-pixel mask: expected an error (no valid "
+                     "contour), got %r" % (flat[:5],))
     if cont is not None and len(cont) >= 3 and len(ctx.pool_contours) < 400:
         ctx.pool_contours.append(cont.tolist())
 
-    def chk3(model, flat=flat):
-        return None if model == flat else ("get_contour", flat)
+    # integer masks (0/1, 0/255) give the contour of the boolean mask
+    alt = case.get("altmask") or ["uint8", "uint8_255", "int64"][
+        (len(rows) + len(rows[0]) + npix) % 3]
+    ma = (m.astype(np.uint8) * 255) if alt == "uint8_255" else m.astype(alt)
+    flat_alt, _ = enc_contour_call(ma, g)
+    if flat_alt != flat:
+        ctx.fail(case, "get_contour of the %s mask differs from that of the "
+                 "boolean mask" % alt)
+
+    def longest_ok():
+        """fallback for masks outside the quantifier (several components,
+        holes): any of the longest contours may be returned"""
+        from dclab.features.contour import remove_duplicates
+        cs = find_contours(np.pad(m.transpose(), 1).astype(float),
+                           level=.9999, positive_orientation="low",
+                           fully_connected="high")
+        if not cs or cont is None:
+            return False
+        ml = max(len(c_) for c_ in cs)
+        for c_ in cs:
+            if len(c_) == ml:
+                d = remove_duplicates(np.asarray(np.round(c_), int) - 1)
+                if canon_cyclic(d.tolist()) == canon_cyclic(cont.tolist()):
+                    return True
+        return False
+
+    def chk3(model, flat=flat, valid=(conn and hf)):
+        if model == flat:
+            return None
+        if model[0] != 1 and flat[0] != 1:
+            return None            # both fail; the exception class is free
+        if model[0] == 1 and flat[0] == 1:
+            mc = canon_cyclic(list(zip(model[1::2], model[2::2])))
+            fc_ = canon_cyclic(list(zip(flat[1::2], flat[2::2])))
+            if mc == fc_:
+                return None        # another start point
+            if not valid and longest_ok():
+                return None
+        return "get_contour", flat
     ctx.add("run_get_contour", r_img(rows_t), case, chk3)
     run.record_case(case, nontrivial)
 
@@ -876,6 +1042,25 @@ def do_moments(ctx, case):
     mom = ir.cont_moments_cv(c)
     raw = float(ir.get_inert_ratio_raw(np.array(pts, dtype=int).reshape(-1, 2)))
     big = case["big"]
+    # the same polygon in the case's dtype gives the same features
+    ci64 = np.array(pts, dtype=int).reshape(-1, 2)
+    for fname in ("get_inert_ratio_raw", "get_inert_ratio_cvx", "get_tilt"):
+        f_ = getattr(ir, fname)
+        try:
+            v1, v2 = float(f_(c)), float(f_(ci64))
+        except Exception as e:       # qhull on degenerate input etc.
+            v1 = v2 = None
+            try:
+                f_(ci64)
+            except Exception:
+                pass
+            else:
+                ctx.fail(case, "%s raised %r for dtype %s only" % (
+                    fname, e, case["dtype"]))
+        if v1 is not None and not fclose(v1, v2, rel=1e-9 * (
+                1e4 if big else 1), scale=1e-12):
+            ctx.fail(case, "%s of the %s contour = %r, of the same contour "
+                     "as int64 = %r" % (fname, case["dtype"], v1, v2))
 
     def chk(model, mom=mom, raw=raw):
         if model == [0]:
@@ -905,6 +1090,17 @@ def do_moments(ctx, case):
         if ex["mu20"] != Fraction(n20, 36 * abs(a00)) or \
                 ex["mu02"] != Fraction(n02, 36 * abs(a00)):
             return "closed form of mu20/mu02", None
+        T_, D_ = model[39], model[40]
+        xm_ = max(abs(v) for p_ in pts for v in p_)
+        if T_ > 0 and D_ < T_ * T_ * (1 - 1e-6) and xm_ <= 4096 and \
+                len(pts) >= 3:
+            wp = math.sqrt((T_ + math.sqrt(D_)) / (T_ - math.sqrt(D_)))
+            mumin = (T_ - math.sqrt(D_)) / 2 / (36 * abs(a00))
+            got = float(ir.get_inert_ratio_prnc(
+                np.array(pts, dtype=int).reshape(-1, 2)))
+            if not abs(got - wp) <= (3e-5 + 2e-14 * xm_ ** 4
+                                     / max(mumin, 1e-3)) * wp:
+                return "get_inert_ratio_prnc vs (T + sqrt D)/(T - sqrt D)", got
         if n02 != 0 and n20 * n02 > 0:
             # mu = m - m10*cx cancels: rounding of m20/m02 (a few ulp)
             # relative to the much smaller mu20/mu02
@@ -974,13 +1170,43 @@ def do_moments(ctx, case):
 
 def do_rotation(ctx, case):
     """principal inertia ratio: rotation invariance on simple polygons
-    (float coordinates), oracle only"""
+    (float coordinates) for arbitrary angles (oracle); for the rotations with
+    rational tangent q/p combined with the scaling sqrt(p^2+q^2) the
+    invariants of the theorem C18_principal_ratio_rotation_invariant are
+    compared with the model and the ratio with the real code"""
     np = _np()
     from dclab.features import inert_ratio as ir
     ir = guard(ctx, case).module(ir)
     c = np.array(case["pts"], dtype=float)
     a = float(ir.get_inert_ratio_prnc(c))
     ok = not math.isnan(a)
+    if "pq" in case:
+        p_, q_ = case["pq"]
+        ci = [[int(round(x)), int(round(y))] for x, y in case["pts"]]
+        cs = [[p_ * x - q_ * y, q_ * x + p_ * y] for x, y in ci]
+        ex, exs = exact_central(ci), exact_central(cs)
+
+        def inv(e):
+            return [e["a00"], e["N20"] + e["N02"],
+                    (e["N20"] - e["N02"]) ** 2 + e["N11"] ** 2]
+        if ex is not None and exs is not None:
+            want = inv(exs) + inv(ex)
+            ctx.add("run_simmap", "(%d, %d, %s)" % (p_, q_, r_pts(ci)), case,
+                    lambda model, want=want: None if model == want else
+                    ("invariants of the rotated contour", want))
+            K = p_ * p_ + q_ * q_
+            T, D = inv(ex)[1], inv(ex)[2]
+            xm = max(abs(v) for pt_ in cs for v in pt_)
+            if T > 0 and D < T * T * (1 - 1e-6) and xm <= 4096:
+                wp = math.sqrt((T + math.sqrt(D)) / (T - math.sqrt(D)))
+                b = float(ir.get_inert_ratio_prnc(np.array(cs)))
+                a_i = float(ir.get_inert_ratio_prnc(np.array(ci)))
+                mumin = (T - math.sqrt(D)) / 2 / (36 * abs(ex["a00"]))
+                tol = 3e-5 + 2e-14 * xm ** 4 * K / max(mumin, 1e-3)
+                if not (abs(b - wp) <= tol * wp and abs(a_i - wp) <= tol * wp):
+                    ctx.fail(case, "principal inertia ratio %r, after rotation "
+                             "by atan2(%d, %d) and scaling %r; eigenvalue "
+                             "ratio %r" % (a_i, q_, p_, b, wp))
     for ang in case["angles"]:
         rot = np.array([[math.cos(ang), -math.sin(ang)],
                         [math.sin(ang), math.cos(ang)]])
@@ -1058,11 +1284,12 @@ def do_volrev(ctx, case):
             return None if v is None else ("vol_revolve (model: assertion)", v)
         if v is None:
             return "vol_revolve (impl: assertion)", None
-        ex = Fraction(model[1], 3 * 512) * Fraction(case["ps4"], 4) ** 3
+        ex = Fraction(model[1], 3 * 512 * 64)     # r8, z8, ps4: 8^3 * 4^3
         if abs(float(ex) * math.pi - v) > 1e-9 * max(abs(v), _vscale(case, ps)):
             return "vol_revolve", v
         return None
-    ctx.add("run_vol_revolve", "(%s, %s, 1)" % (zl(case["r8"]), zl(case["z8"])),
+    ctx.add("run_vol_revolve", "(%s, %s, %d)" % (zl(case["r8"]), zl(case["z8"]),
+                                                case["ps4"]),
             case, chk)
     # oracle: the definition in exact arithmetic (model independent)
     valid = (len(case["r8"]) == len(case["z8"]) and len(case["r8"]) >= 3
@@ -1115,8 +1342,9 @@ def do_volume(ctx, case):
     pts = case["pts"]
     c = np.array(pts, dtype=int).reshape(-1, 2)
     pix = case["pix"]
-    px = case["cx8"] / 8 * pix
-    py = case["cy8"] / 8 * pix
+    k = case.get("k", 8)
+    px = case["cx8"] / k * pix
+    py = case["cy8"] / k * pix
 
     def gv(cc, x, y, p):
         if case["container"] == "single":
@@ -1126,25 +1354,26 @@ def do_volume(ctx, case):
             return float("inf")
         return float(out[0])
     v = gv(c, px, py, pix)
-    ext = (np.ptp(c[:, 0]) + 1) * (np.abs(c[:, 1] - case["cy8"] / 8).max()
+    ext = (np.ptp(c[:, 0]) + 1) * (np.abs(c[:, 1] - case["cy8"] / k).max()
                                    + 1) ** 2 * math.pi * len(c)
     sc = ext * pix ** 3
 
     def chk(model, v=v):
         if model == [0]:
             return None if math.isnan(v) else ("get_volume (model nan)", v)
-        ex = Fraction(model[1], 2 * 3 * 512)
-        if math.isnan(v) or abs(float(ex) * math.pi * pix ** 3 - v) > \
+        ex = Fraction(model[1], model[2])      # coefficient of pi, with pix
+        if math.isnan(v) or abs(float(ex) * math.pi - v) > \
                 1e-9 * max(abs(v), sc):
             return "get_volume", v
         return None
-    ctx.add("run_get_volume", "(8, %s, %s, %s)" % (
-        common.zlit(case["cx8"]), common.zlit(case["cy8"]), r_pts(pts)),
-        case, chk)
+    fpix = Fraction(pix)                       # the float, exactly
+    ctx.add("run_get_volume_pi", "(%d, %s, %s, %s, %d, %d%%positive)" % (
+        k, common.zlit(case["cx8"]), common.zlit(case["cy8"]), r_pts(pts),
+        fpix.numerator, fpix.denominator), case, chk)
     # oracle: the definition in exact arithmetic (model independent); a
     # contour of four or more points has a (finite) volume
-    wantc = exact_volume(pts, Fraction(case["cx8"], 8),
-                         Fraction(case["cy8"], 8))
+    wantc = exact_volume(pts, Fraction(case["cx8"], k),
+                         Fraction(case["cy8"], k))
     if wantc is None:
         if not math.isnan(v):
             ctx.fail(case, "get_volume = %r for a contour of %d points "
@@ -1171,8 +1400,31 @@ def do_volume(ctx, case):
                                                                sc * f):
                 ctx.fail(case, "get_volume %s: got %r, expected %r" % (
                     name, got, want))
+    hullp = exact_hull(pts) if case.get("fix") else []
+    if len(hullp) >= 4:
+        # fix_orientation=True ("the contour must be centered around (0,0)"):
+        # on the convex hull, centred at the mean of its vertices, the
+        # orientation of the input does not matter and the value is the
+        # magnitude of the definition (defect repaired by 766fd2f)
+        from dclab.features.volume import get_volume as gv0
+        gfix = guard(ctx, case)(gv0)
+        hc = np.array(hullp, dtype=int)
+        hx = Fraction(sum(p_[0] for p_ in hullp), len(hullp))
+        hy = Fraction(sum(p_[1] for p_ in hullp), len(hullp))
+        f1 = float(gfix(hc, float(hx) * pix, float(hy) * pix, pix,
+                        fix_orientation=True))
+        f2 = float(gfix(hc[::-1].copy(), float(hx) * pix, float(hy) * pix, pix,
+                        fix_orientation=True))
+        want = abs(float(exact_volume(hullp, hx, hy))) * math.pi * pix ** 3
+        ctx.run.count("volume:fix_orientation")
+        if not (abs(f1 - want) <= 1e-9 * max(want, sc) and
+                abs(f2 - want) <= 1e-9 * max(want, sc)):
+            ctx.fail(case, "get_volume(fix_orientation=True) of a convex "
+                     "contour = %r, of the reversed contour %r, definition "
+                     "%r" % (f1, f2, want))
     ctx.run.record_case(case, not math.isnan(v) and v != 0)
     ctx.run.count("volume:" + case["container"])
+    ctx.run.count("volume:k=%d" % k)
     ctx.run.count("volume:npoints=%s" % (len(pts) if len(pts) <= 5 else ">5"))
 
 
@@ -1268,7 +1520,12 @@ def do_bright(ctx, case):
         dt, bdt = np.dtype(case["dtype"]), np.dtype(case["bgdtype"])
     else:       # older corpus entries
         dt = bdt = np.dtype(np.uint8 if case["bits"] == 8 else np.uint16)
-    masks = [np.array(e["mask"], dtype=bool) for e in ev]
+    mdt = case.get("maskdtype", "bool")
+    if mdt == "uint8_255":
+        masks = [np.array(e["mask"], dtype=np.uint8) * 255 for e in ev]
+    else:
+        masks = [np.array(e["mask"], dtype=mdt) for e in ev]
+    run.count("bright:mask-dtype:" + mdt)
     imgs = [np.array(e["img"], dtype=dt) for e in ev]
     bgs = [np.array(e["bg"], dtype=bdt) for e in ev]
     for e, a, b in zip(ev, imgs, bgs):
@@ -1285,12 +1542,37 @@ def do_bright(ctx, case):
         off = list(offs)
     else:
         off = np.array(offs)
+    # more images/backgrounds than masks: the first len(mask) are used
+    imgs_x = imgs + ([imgs[0]] if case.get("extra") else [])
+    bgs_x = bgs + ([bgs[0], bgs[0]] if case.get("extra") else [])
     if case["container"] == "single":
         M, I, B = masks[0], imgs[0], bgs[0]
     elif case["container"] == "array":
-        M, I, B = np.array(masks), np.array(imgs), np.array(bgs)
+        M, I, B = np.array(masks), np.array(imgs_x), np.array(bgs_x)
     else:
-        M, I, B = masks, imgs, bgs
+        # more masks than images: the first len(image) are used
+        M, I, B = masks + ([masks[0]] if case.get("extra_mask") and
+                           not case.get("extra") else []), imgs_x, bgs_x
+    if ok == "array_bad":
+        # correspondence only: the model says "cannot be broadcast"
+        try:
+            (bright_bc.get_bright_bc if fn == 1 else
+             bright_perc.get_bright_perc)(M, I, B, bg_off=off)
+            enc_bad = [1]
+        except Exception:
+            enc_bad = [9]
+        evs = "[" + "; ".join("(%s, %s, %s)" % (
+            common.blist([v for r in e["mask"] for v in r]),
+            zl([v for r in e["img"] for v in r]),
+            zl([v for r in e["bg"] for v in r])) for e in ev) + "]"
+        ctx.add("run_bright_batch", "(%d, %s, 2, %s)" % (
+            fn, evs, zl(case["off8"])), case,
+            lambda model, enc_bad=enc_bad: None if model[:1] == enc_bad else
+            ("bright batch with %d offsets for %d events" % (
+                len(case["off8"]), len(ev)), enc_bad))
+        run.count("bright:offsets-not-broadcastable")
+        run.record_case(case, False)
+        return
     err = None
     try:
         if fn == 0:
@@ -1321,6 +1603,55 @@ def do_bright(ctx, case):
             F_PERC if known else None)
         run.record_case(case, False)
         return
+    if len(res[0]) != len(ev):
+        ctx.fail(case, "%d results for %d masks" % (len(res[0]), len(ev)))
+        run.record_case(case, False)
+        return
+    # ret_data variants return the corresponding column
+    if fn < 2:
+        for j, rd in enumerate(("avg", "sd")):
+            if fn == 0:
+                one = bright.get_bright(M, I, ret_data=rd)
+            else:
+                one = bright_bc.get_bright_bc(M, I, B, bg_off=off, ret_data=rd)
+            one = np.atleast_1d(np.asarray(one, dtype=float))
+            if one.shape != res[j].shape or not np.array_equal(
+                    one, res[j], equal_nan=True):
+                ctx.fail(case, "ret_data=%r gives %r, column %d of "
+                         "ret_data='avg,sd' is %r" % (rd, one.tolist(), j,
+                                                      res[j].tolist()))
+    # the whole batch against the model (offset containers, broadcasting)
+    if fn and case["container"] != "single":
+        evs = "[" + "; ".join("(%s, %s, %s)" % (
+            common.blist([v for r in e["mask"] for v in r]),
+            zl([v for r in e["img"] for v in r]),
+            zl([v for r in e["bg"] for v in r])) for e in ev) + "]"
+        okc = 0 if ok == "none" else 1 if ok == "scalar" else 2
+        o8 = case["off8"] if okc == 2 else case["off8"][:1]
+
+        def chkb(model, res=res, fn=fn, btol=btol):
+            if model[0] != 1:
+                return "bright batch (model: broadcast error)", None
+            pos = 1
+            for i, e in enumerate(ev):
+                if model[pos] == 0:
+                    pos += 1
+                    if not math.isnan(res[0][i]):
+                        return "bright batch event %d (model nan)" % i, None
+                    continue
+                a = Fraction(model[pos + 1], model[pos + 2])
+                b = Fraction(model[pos + 3], model[pos + 4])
+                pos += 5
+                sc = max([abs(x) for r in e["img"] + e["bg"] for x in r]
+                         + [1.0])
+                bb = math.sqrt(b) if fn < 2 else float(b)
+                if not (abs(float(a) - res[0][i]) <= btol * sc and
+                        abs(bb - res[1][i]) <= btol * sc):
+                    return "bright batch event %d" % i, (
+                        float(res[0][i]), float(res[1][i]))
+            return None
+        ctx.add("run_bright_batch", "(%d, %s, %d, %s)" % (fn, evs, okc,
+                                                         zl(o8)), case, chkb)
     nontrivial = False
     for i, e in enumerate(ev):
         flatm = [v for r in e["mask"] for v in r]
@@ -1381,10 +1712,9 @@ def do_crosstalk(ctx, case):
     try:
         minv = fc.get_compensation_matrix(**kw)
         enc = None
-    except np.linalg.LinAlgError:      # a subclass of ValueError
-        minv, enc = None, [3]
-    except ValueError:
-        minv, enc = None, [2]
+    except Exception:
+        # which exception class is raised is not part of the property
+        minv, enc = None, ([2] if neg else [3])
     run.count("crosstalk:" + ("negative" if neg else "singular" if det == 0
                               else "ok"))
     if neg and enc != [2]:
@@ -1435,6 +1765,32 @@ def do_crosstalk(ctx, case):
                     "correct_crosstalk", got)
             ctx.add("run_crosstalk", "(%s, %s, %d)" % (
                 common.zlist(case["cts"]), common.zlist(t), ch), case, chk2)
+    # the model's spill (used by the inversion theorem) feeds the real
+    # correction: the true signals come back
+    for t in case["fls"]:
+        def chk_spill(model, t=t):
+            meas = [float(Fraction(model[2 * j], model[2 * j + 1]))
+                    for j in range(3)]
+            s_ = (max(abs(v) / 8 for v in t) + 1) * sc
+            for ch in (1, 2, 3):
+                back = float(fc.correct_crosstalk(meas[0], meas[1], meas[2],
+                                                  ch, **kw))
+                if not abs(back - t[ch - 1] / 8) <= 1e-9 * s_ * max(
+                        1.0, 1 / abs(float(det))):
+                    return "correct_crosstalk(model spill) ch %d" % ch, back
+            return None
+        ctx.add("run_spill", "(%s, %s)" % (common.zlist(case["cts"]),
+                                           common.zlist(t)), case, chk_spill)
+    # defaults (ct.. = 0) and a channel given as str / float
+    nz = {k_: v for k_, v in kw.items() if v != 0}
+    t0 = [v / 8 for v in case["fls"][0]]
+    for ch, chv in ((1, "1"), (2, 2.0), (3, np.int64(3))):
+        a = float(fc.correct_crosstalk(t0[0], t0[1], t0[2], ch, **kw))
+        b = float(fc.correct_crosstalk(t0[0], t0[1], t0[2], chv, **nz))
+        if a != b:
+            ctx.fail(case, "correct_crosstalk with defaulted zero "
+                     "coefficients / fl_channel=%r gives %r, explicit %r" % (
+                         chv, b, a))
     # oracle: spill the true signals (exact), correct, get them back
     cf = [Fraction(c, 64) for c in case["cts"]]
     Cf = [[1, cf[2], cf[4]], [cf[0], 1, cf[5]], [cf[1], cf[3], 1]]
@@ -1451,6 +1807,16 @@ def do_crosstalk(ctx, case):
                 ctx.fail(case, "spill then correct: channel %d gives %r, "
                          "true signal %r" % (ch, back, float(tr[ch - 1])))
     run.record_case(case, True)
+
+
+def exact_inv3(C):
+    """inverse of a 3x3 matrix of Fractions (adjugate / determinant)"""
+    (a, b, c), (d, e, f), (g_, h, i) = C
+    det = a * (e * i - f * h) - b * (d * i - f * g_) + c * (d * h - e * g_)
+    adj = [[e * i - f * h, c * h - b * i, b * f - c * e],
+           [f * g_ - d * i, a * i - c * g_, c * d - a * f],
+           [d * h - e * g_, b * g_ - a * h, a * e - b * d]]
+    return [[x / det for x in row] for row in adj]
 
 
 def do_dataset(ctx, case):
@@ -1473,14 +1839,24 @@ def do_dataset(ctx, case):
     off = np.array(case["off8"], dtype=float) / 8
     ys = [np.nonzero(m)[0].mean() for m in masks]
     xs = [np.nonzero(m)[1].mean() for m in masks]
-    pix = 0.34
+    pix = case.get("pix", 0.34)
+    dpos = case.get("dpos", [[0, 0]] * n)
     data = {"mask": masks, "image": img, "image_bg": bg,
-            "pos_x": np.array(xs) * pix, "pos_y": np.array(ys) * pix,
+            "pos_x": (np.array(xs) + [d[0] / 8 for d in dpos]) * pix,
+            "pos_y": (np.array(ys) + [d[1] / 8 for d in dpos]) * pix,
             "deform": np.zeros(n)}
     if case["with_off"]:
         data["bg_off"] = off
+    fl = case.get("fl")
+    if fl:
+        for ch in fl["channels"]:
+            data["fl%d_max" % ch] = np.array(fl["sig8"][ch - 1][:n],
+                                             dtype=float) / 8
     ds = dclab.new_dataset(data)
     ds.config["imaging"]["pixel size"] = pix
+    if fl:
+        for key, v64 in fl["ct64"].items():
+            ds.config["calculation"]["crosstalk fl" + key] = v64 / 64
     data_before = _snap(data)
     conts = [contour.get_contour(m) for m in masks]
     o = off if case["with_off"] else None
@@ -1502,6 +1878,22 @@ def do_dataset(ctx, case):
     want["tilt"] = inert_ratio.get_tilt(conts)
     want["volume"] = volume.get_volume(conts, data["pos_x"], data["pos_y"],
                                        pix)
+    if fl:
+        # crosstalk-corrected maxima: measured = true * C  =>  true =
+        # measured * C^-1, exact fractions; absent channels/coefficients are 0
+        C = [[Fraction(1 if i == j else fl["ct64"].get("%d%d" % (i + 1, j + 1),
+                                                       0), 1 if i == j else 64)
+              for j in range(3)] for i in range(3)]
+        inv = exact_inv3(C)
+        for ch in fl["channels"]:
+            vals = []
+            for ev_ in range(n):
+                meas = [Fraction(fl["sig8"][k_][ev_], 8) if (k_ + 1) in
+                        fl["channels"] else 0 for k_ in range(3)]
+                vals.append(float(sum(meas[k_] * inv[k_][ch - 1]
+                                      for k_ in range(3))))
+            want["fl%d_max_ctc" % ch] = np.array(vals)
+        run.count("dataset:fl:" + "".join(map(str, fl["channels"])))
     good = True
     for feat, w in want.items():
         try:
@@ -1515,8 +1907,9 @@ def do_dataset(ctx, case):
             good = False
             continue
         w = np.asarray(w, dtype=float)
+        fsc = 1e-6 if not feat.startswith("fl") else 1e3
         if got.shape != w.shape or not all(
-                fclose(a, b, rel=1e-9, scale=1e-6) for a, b in zip(got, w)):
+                fclose(a, b, rel=1e-9, scale=fsc) for a, b in zip(got, w)):
             ctx.fail(case, "ds[%r] = %r, expected %r" % (
                 feat, got.tolist(), w.tolist()))
             good = False
@@ -1656,6 +2049,10 @@ def do_fmoments(ctx, case):
                 ("swapped", [[y, x] for x, y in num0])]
     dtypes = ["float32", "float64"] + (["int32"] if den == 1 else []) + \
         (["float16"] if case["f16"] else [])
+    if den == 1 and min(v for p_ in num0 for v in p_) >= 0 and \
+            min(t) >= 0:
+        dtypes += ["uint32"] + (["uint16"] if max(
+            v for p_ in num0 for v in p_) + max(t) < 65536 else [])
     nontrivial = False
     done = False
     for vname, num in variants:
@@ -1837,6 +2234,35 @@ def do_lazy(ctx, case):
                          got if isinstance(got, str) else got.tolist(),
                          want if isinstance(want, str) else want.tolist()))
             break
+    # get_contour on the whole stack / a list, and slices of the lazy list
+    valid = []
+    for i in range(len(masks)):
+        try:
+            valid.append(fc.get_contour(masks[i]))
+        except BaseException:
+            valid.append(None)
+    gc = guard(ctx, case)(fc.get_contour)
+    if all(v is not None for v in valid):
+        for name, arg in (("3-D array", masks), ("list", list(masks))):
+            out = gc(arg)
+            if len(out) != len(valid) or not all(
+                    a.shape == b.shape and (a == b).all()
+                    for a, b in zip(out, valid)):
+                ok = False
+                ctx.fail(case, "get_contour(%s of masks) differs from the "
+                         "contours of the single masks" % name)
+        run.count("lazy:stack")
+    lo = case["order"][0] % len(masks)
+    hi = lo + 1 + case["order"][-1] % (len(masks) - lo)
+    if all(v is not None for v in valid[lo:hi]):
+        out = lazy[lo:hi]
+        if len(out) != hi - lo or not all(
+                a.shape == b.shape and (a == b).all()
+                for a, b in zip(out, valid[lo:hi])):
+            ok = False
+            ctx.fail(case, "lazy contour list slice [%d:%d] differs from the "
+                     "contours of the single masks" % (lo, hi))
+        run.count("lazy:slice")
     run.record_case(case, ok and errors > 0 and
                     len(set(case["order"])) < len(case["order"]))
     run.count("lazy:%s:%s" % (case["via"], "with-invalid" if errors else
@@ -1869,8 +2295,11 @@ def gen_sequence(rng, pool_contours):
             x, y = a * math.cos(t), b * math.sin(t)
             base.append([cx + x * math.cos(th) - y * math.sin(th),
                          cy + x * math.sin(th) + y * math.cos(th)])
-    dtype = rng.choice(["float64", "float64", "float64", "int64", "float32"])
-    if dtype == "int64":
+    dtype = rng.choice(["float64", "float64", "float64", "int64", "float32",
+                        "uint16"])
+    if dtype == "uint16" and min(v for p in base for v in p) < 0.5:
+        dtype = "int64"
+    if dtype in ("int64", "uint16"):
         base = [[int(round(x)), int(round(y))] for x, y in base]
     container = rng.choice(["array", "array", "list", "dictds"])
     ops = [rng.choice(SEQ_OPS + ["prnc"]) for _ in range(rng.randint(2, 7))]
@@ -1879,7 +2308,9 @@ def gen_sequence(rng, pool_contours):
     xs = [p[0] for p in base]
     ys = [p[1] for p in base]
     return dict(kind="sequence", pts=base, dtype=dtype, container=container,
-                ops=ops, shift=[rng.randint(-5, 40), rng.randint(-5, 20)],
+                ops=ops, shift=[rng.randint(0 if dtype == "uint16" else -5, 40),
+                                rng.randint(0 if dtype == "uint16" else -5,
+                                            20)],
                 pos=[sum(xs) / len(xs), sum(ys) / len(ys)], pix=0.34)
 
 
@@ -1897,7 +2328,10 @@ def _same(x, y):
     np = _np()
     x = np.asarray(x, dtype=float)
     y = np.asarray(y, dtype=float)
-    return x.shape == y.shape and bool(np.array_equal(x, y, equal_nan=True))
+    # same computation, same input: equal up to a reordering of float
+    # operations (1e-12), nan where nan
+    return x.shape == y.shape and bool(np.allclose(x, y, rtol=1e-12, atol=0,
+                                                   equal_nan=True))
 
 
 def do_sequence(ctx, case):
@@ -2025,9 +2459,27 @@ def gen_dataset(rng, thorough):
         conn, hf, npix, tb = mask_props(rows)
         if conn and hf and npix >= 4 and not tb:
             masks.append(dict(rows=rows))
-    return dict(kind="dataset", masks=masks, seed=rng.randint(0, 10 ** 6),
+    case = dict(kind="dataset", masks=masks, seed=rng.randint(0, 10 ** 6),
                 with_off=rng.random() < 0.6,
-                off8=[rng.randint(-40, 40) for _ in range(n)])
+                off8=[rng.randint(-40, 40) for _ in range(n)],
+                pix=rng.choice([0.34, 0.34, 0.2, 0.5, 1.36]),
+                dpos=[[rng.randint(-12, 12), rng.randint(-8, 8)]
+                      for _ in range(n)])
+    if rng.random() < 0.7:
+        channels = rng.choice([[1, 2, 3], [1, 2, 3], [1, 2], [1, 3], [2, 3]])
+        keys = [("%d%d" % (i, j)) for i in channels for j in channels
+                if i != j]
+        while True:
+            ct64 = {k_: rng.choice([0, rng.randint(1, 40), rng.randint(1, 90)])
+                    for k_ in keys}
+            cts = [ct64.get(k_, 0) for k_ in ("21", "31", "12", "32", "13",
+                                              "23")]
+            if abs(det64(cts)) >= Fraction(1, 8):
+                break
+        case["fl"] = dict(channels=channels, ct64=ct64,
+                          sig8=[[rng.randint(0, 80000) for _ in range(n)]
+                                for _ in range(3)])
+    return case
 
 
 def gen_all(run):
@@ -2035,7 +2487,9 @@ def gen_all(run):
     f = 8 if run.thorough else 1
     cases = load_corpus()
     run.count("corpus", len(cases))
-    cases += [gen_mask(rng, run.thorough) for _ in range(170 * f)]
+    cases += [gen_mask(rng, run.thorough) for _ in range(140 * f)]
+    cases += [gen_mask(rng, run.thorough, tag="frame")
+              for _ in range(min(2 * f, 6))]
     return cases, f
 
 
@@ -2058,15 +2512,8 @@ def run(run):
     later = [c for c in cases if c["kind"] != "mask"]
     later += [gen_dedup(rng) for _ in range(120 * f)]
     later += [gen_moments(rng, ctx.pool_contours) for _ in range(150 * f)]
-    later += [dict(kind="rotation",
-                   pts=[[p[0] + rng.random() * 0.0, p[1]] for p in
-                        simple_polygon(rng, rng.randint(3, 30),
-                                       rng.randint(4, 80),
-                                       rng.randint(-20, 200),
-                                       rng.randint(-20, 60))],
-                   angles=[rng.uniform(0, 2 * math.pi) for _ in range(3)])
-              for _ in range(40 * f)]
-    later += [gen_sequence(rng, ctx.pool_contours) for _ in range(120 * f)]
+    later += [gen_rotation(rng) for _ in range(50 * f)]
+    later += [gen_sequence(rng, ctx.pool_contours) for _ in range(100 * f)]
     later += [gen_fmoments(rng, ctx.pool_contours) for _ in range(100 * f)]
     later += [gen_volrev(rng) for _ in range(120 * f)]
     later += [gen_volume(rng, ctx.pool_contours) for _ in range(120 * f)]
@@ -2082,10 +2529,28 @@ def run(run):
     later += [gen_lazy(rng, run.thorough) for _ in range(40 * f)]
     for c in later:
         dispatch(c)
+    # np.percentile (trusted base) against the model for any q
+    np = _np()
+    for _ in range(40 * f):
+        vals = [rng.randint(-500, 70000) for _ in range(rng.randint(1, 30))]
+        q = rng.choice([0, 10, 25, 50, 90, 100, rng.randint(0, 100)])
+        got = float(np.percentile(np.array(vals), q))
+        pc = dict(kind="percentile", q=q, vals=vals)
+        ctx.add("run_percentile", "(%d, %s)" % (q, zl(vals)), pc,
+                lambda model, got=got: None if abs(float(Fraction(
+                    model[0], model[1])) - got) <= 1e-9 * (abs(got) + 1)
+                else ("np.percentile", got))
     # ---- evaluate the model, compare ----
+    import concurrent.futures
+    # memory: every coq_map already runs 16 coqc processes
+    with concurrent.futures.ThreadPoolExecutor(
+            max_workers=1 if run.thorough else 2) as ex:
+        futs = {fn: ex.submit(common.coq_map, run.scratch, "c18_" + fn,
+                              HEADER, fn, [j[0] for j in jobs], 48)
+                for fn, jobs in ctx.jobs.items()}
+        allouts = {fn: fu.result() for fn, fu in futs.items()}
     for fn, jobs in ctx.jobs.items():
-        outs = common.coq_map(run.scratch, "c18_" + fn, HEADER, fn,
-                              [j[0] for j in jobs], shard=120)
+        outs = allouts[fn]
         for (rendered, case, checker), m in zip(jobs, outs):
             run.corr_checked += 1
             bad = checker(m)
@@ -2226,7 +2691,8 @@ def search(run, broken):
         if k == 0:
             c = gen_mask(rng, True)
         elif k == 1:
-            c = gen_moments(rng, [])
+            c = gen_moments(rng, []) if rng.random() < .7 else \
+                gen_rotation(rng)
         elif k == 2:
             c = gen_volrev(rng)
         elif k == 3:
